@@ -83,7 +83,7 @@ def h1_shapes(maxsz, tier):
                 add("t0" + name, lay, l0, [], None, "POLLOUT", l0 % 2)
         # one chunk, every size, would-block
         if thor or name != "C":
-            for l0 in (l0s if thor or name != "B" else [0, 1, 2, 6, 10, 11]):
+            for l0 in (l0s if thor or name != "B" else sorted(set([0, 1, 2, s1 // 2, s1 - 2, s1 - 1]))):
                 for c in allc:
                     add("c1" + name, lay, l0, [c], WB, None, 1 if (c == 3) else 0)
         # one chunk then close / error
@@ -96,7 +96,7 @@ def h1_shapes(maxsz, tier):
         if thor:
             l2, cs = l0s, allc
         else:
-            l2 = sorted(set([0, 1, s1 // 2, s1 - 1])) if name in ("A", "B") else []
+            l2 = sorted(set([0, s1 // 2, s1 - 1])) if name in ("A", "B") else []
             cs = few
         for l0 in l2:
             for c1 in cs:
@@ -311,7 +311,7 @@ def main():
         group_instances("m8", h1_shapes(8, "quick"), h1_fmt, ["KSI_TLV_MAX_SIZE=8"]) + \
         group_instances("m16", h1_shapes(16, "quick"), h1_fmt, ["KSI_TLV_MAX_SIZE=16"])
     # the same oracle on CONCRETE byte values (see c14_async.h): conclusive also for defects that make lengths symbolic
-    conc = [("conc", sh) for tag, sh in h1_shapes(12, "quick") if tag in ("c1A", "x1A", "c2A", "c3D")][::2]
+    conc = [("conc", sh) for tag, sh in h1_shapes(12, "quick") if tag in ("c1A", "x1A", "c2A")][::2]
     cq = group_instances("m12", conc, h1_fmt, ["KSI_TLV_MAX_SIZE=12", "C14_CONCRETE_BYTES=1"])
     q = cq + q
     th = cq + th
